@@ -72,6 +72,10 @@ CORPUS = {
                                             ["get", {"max_workers": 3, "timeout": 1000, "reuse": "auto", "kill_workers": False}],
                                             ["submit", _e(7777)], ["result", 7777]],
                                            [["sleep", 5.0], ["kill", 0, -9]]),
+    # a long task submitted right when the only worker idles out: it must be executing once everything has settled
+    "timeout0_then_gate": _case(_cfg(timeout=0), [["submit", {"kind": "gate", "token": 0, "g": 0}], ["wait_all"], ["submit", _e(1)], ["result", 1],
+                                                  ["shutdown", True, False]],
+                                [["sleep", 5000.0], ["open_gate", 0]]),
 }
 
 FOR = {
@@ -83,8 +87,8 @@ FOR = {
     "C04": ["unp_arg_shutdown", "unp_res"],
     "C05": ["echo_shutdown", "unp_arg_del", "pending_del", "nowait_shutdown", "exit_with_pending", "resize_grow_old_worker_killed"],
     "C06": ["kill_shutdown"],
-    "C07": ["timeout0_seq", "timeout_small_seq", "partial_pool_respawn"],
-    "C08": ["timeout0_seq", "timeout_small_seq", "partial_pool_respawn"],
+    "C07": ["timeout0_seq", "timeout_small_seq", "partial_pool_respawn", "timeout0_then_gate"],
+    "C08": ["timeout0_seq", "timeout_small_seq", "partial_pool_respawn", "timeout0_then_gate"],
     "C09": ["reusable_crash_get", "resize_idle_kill_probe", "resize_grow_old_worker_killed"],
     "C10": ["reusable_resize", "resize_grow_new_worker_dies", "resize_grow_old_worker_killed"],
 }
